@@ -108,6 +108,10 @@ def classify(failure):
             return "C07-F9x"
         if "op:modify_type" in tags and "md-type:unreflectable" in tags:
             return "C07-T1"
+        if ("op:add_fk" in tags or "op:remove_fk" in tags) and "fk-default-schema" in tags:
+            return "C07-MAINFK"
+    if kind == "missed" and ("mut:dropFK" in tags or "mut:addFK" in tags) and "fk-default-schema" in tags:
+        return "C07-MAINFK"
     if kind == "missed" and "mut:changeDefault" in tags:
         if any(t in tags for t in ("old-default:str-nonplain", "new-default:str-nonplain")):
             return "C07-F9"
